@@ -31,11 +31,11 @@ import (
 func init() {
 	simkit.Register(&simkit.Property{
 		ID: "C19", Level: "exploration", Bubble: true, Run: runC19,
-		Rule: "World D+C, Gnosis flavour: 2-3 real keyper stacks (flavour handlers, middleware, KeyShareHandler, real SequencerSyncer on simeth, real maybeTriggerDecryption incl. tx-pointer ageing through a stubbed beacon API, pgsim). Per run 6-22 steps over {new blocks with 0-3 TransactionSubmitted events (gas below / at / above the encrypted gas limit, two eons), slot trigger on all or a subset of keypers (subset < threshold makes no keys appear, the pointer ages), keyper restart (real ResetAllTxPointerAges)}; all deliveries, database and RPC round trips are scheduler choices, so slot triggers interleave with received and self-produced keys messages. Oracles: every emitted trigger's identity list equals ref.GnosisSelect(slot, the node's synced queue, the pointer recorded with the trigger, gas limit) - slot identity first, gas-bounded prefix with the at-least-one rule, sorted; triggers of different keypers for one slot with the same pointer are byte-identical; at quiescence after a keys message (p, k) was processed the pointer row is (p+k-1, age 0); when the pointer was NULL-aged (restart) or older than the maximum and nothing is in flight the next trigger starts at the queue length. Non-trivial = a run with an outdated/unknown pointer fallback or a gas-limit cut; distinct = distinct trace hashes among those.",
+		Rule: "World D+C, Gnosis flavour: 2-3 real keyper stacks (flavour handlers, middleware, KeyShareHandler, real SequencerSyncer on simeth, real maybeTriggerDecryption incl. tx-pointer ageing through a stubbed beacon API, pgsim). Per run 6-22 steps over {new blocks with 0-3 TransactionSubmitted events (gas below / at / above the encrypted gas limit, two eons), slot trigger on all or a subset of keypers (subset < threshold makes no keys appear, the pointer ages), keyper restart (real ResetAllTxPointerAges)}; all deliveries, database and RPC round trips are scheduler choices, so slot triggers interleave with received and self-produced keys messages. Oracles: every emitted trigger's identity list equals ref.GnosisSelect(slot, the node's synced queue, the pointer recorded with the trigger, gas limit) - slot identity first, gas-bounded prefix with the at-least-one rule, sorted; triggers of different keypers for one slot with the same pointer are byte-identical; at quiescence after a keys message (p, k) was processed (received and accepted, or self-produced and published) the pointer row is (p+k-1, age 0) and in a slot without a processed keys message the pointer value does not move; when the pointer was NULL-aged (restart) or older than the maximum and nothing is in flight the next trigger starts at the queue length. Non-trivial = a run with an outdated/unknown pointer fallback or a gas-limit cut; distinct = distinct trace hashes among those.",
 		Assumptions: []string{"the sequencer contract enforces the minimum gas per transaction", "the beacon node's proposer duties are served by an in-process stub; the proposer is registered"},
 		Real:        []string{"gnosis.Keyper.maybeTriggerDecryption/triggerDecryption/getTxPointer/getDecryptionIdentityPreimages", "gnosis handlers + MessagingMiddleware (advanceTxPointer)", "gnosis.SequencerSyncer", "epochkghandler", "p2p", "sqlc/pgx"},
 		Stub:        []string{"libp2p (simnet)", "PostgreSQL (pgsim)", "execution node (simeth)", "beacon API (in-process http.RoundTripper)", "DKG (trusted dealer)"},
-		QuickRuns:   200, ThoroughRuns: 20000, QuickMinimize: 40, ThoroughMinimize: 200,
+		QuickRuns:   800, ThoroughRuns: 20000, QuickMinimize: 40, ThoroughMinimize: 200,
 	})
 }
 
